@@ -19,6 +19,8 @@ Record vcfg := {
 Record err := { e_off : N; e_code : N; e_word : option (list N); e_tags : list N }.
 Definition mk_err (off code : N) (w : option (list N)) : err :=
   {| e_off := off; e_code := code; e_word := w; e_tags := [] |}.
+Definition mk_err_t (off code : N) (tags : list N) : err :=
+  {| e_off := off; e_code := code; e_word := None; e_tags := tags |}.
 Definition CODE_PAYLOAD := 0.   (* the un-coded "Payload error following RDH" message *)
 
 Inductive vmsg := VErr (e : err) | VStats (f : rflags).
@@ -121,6 +123,23 @@ Definition werr (s : cdp_state) (code : N) (w : list N) : vmsg := VErr (mk_err (
 Definition werr_noword (s : cdp_state) (code : N) : vmsg := VErr (mk_err (word_pos s) code None).
 
 (* ---- the frame logic of stave mode ---- *)
+(* what an [E74]/[E75] message says, as numbers: per lane in error  lane * 16 + 8*[E9003] + 4*[E9004] + 2*[E9005] + (bunch counter
+   set twice for a chip); 4096 = bunch counters differ between lanes *)
+Definition TAG_BC_MISMATCH : N := 4096.
+Definition lane_tag (x : N * lane_out) : N :=
+  match snd x with
+  | LO_errors a b c d => fst x * 16 + 8 * b2n a + 4 * b2n b + 2 * b2n c + b2n d
+  | _ => fst x * 16
+  end.
+
+(* add_fatal_lanes *)
+Definition add_fatal_lanes (dedup : bool) (known : option (list N)) (new : list N) : option (list N) :=
+  match new with
+  | [] => known
+  | _ => let k := match known with Some f => f | None => [] end in
+         Some (if dedup then fold_left (fun acc x => if existsb (N.eqb x) acc then acc else acc ++ [x]) new k else k ++ new)
+  end.
+
 (* process_readout_frame: TDT with packet_done closes the frame *)
 Definition process_readout_frame (c : vcfg) (s : cdp_state) (rf : rfv) : result (cdp_state * list vmsg) :=
   match rf_frame rf with
@@ -138,21 +157,21 @@ Definition process_readout_frame (c : vcfg) (s : cdp_state) (rf : rfv) : result 
         match check_frame ly (v_chip_count c) (v_chip_orders c) fr with
         | Panic p => Panic p
         | Ok res =>
-            let fatal' := match fres_new_fatal res with
-                          | [] => rf_fatal_lanes rf
-                          | nf => Some (match rf_fatal_lanes rf with Some f => f ++ nf | None => nf end)
-                          end in
-            match frame_lanes_valid ly fr fatal' with
+            let known := rf_fatal_lanes rf in
+            let fatal' := add_fatal_lanes Gen.Facts.fatal_lanes_deduplicated known (fres_new_fatal res) in
+            (* the lane-count rule sees either the lanes known before this frame or also those announced in it *)
+            match frame_lanes_valid ly fr (if Gen.Facts.fatal_lanes_added_after_lane_check then known else fatal') with
             | Panic p => Panic p
             | Ok lv =>
                 let is_ib := match ly with L_Inner => true | _ => false end in
                 let m1 := match lv with
-                          | Some _ => [VErr (mk_err start (if is_ib then 72 else 73) None)]
+                          | Some k => [VErr (mk_err_t start (if is_ib then 72 else 73) [k])]
                           | None => []
                           end in
                 let m3 := match fres_lane_errs res, fres_bc_mismatch res with
                           | [], false => []
-                          | _, _ => [VErr (mk_err start (if is_ib then 74 else 75) None)]
+                          | _, _ => [VErr (mk_err_t start (if is_ib then 74 else 75)
+                                                    (map lane_tag (fres_lane_errs res) ++ (if fres_bc_mismatch res then [TAG_BC_MISMATCH] else [])))]
                           end in
                 Ok (set_rfv s (Some {| rf_frame := None; rf_in_frame := false; rf_layer := rf_layer rf; rf_fatal_lanes := fatal' |}),
                     m1 ++ [VStats (fres_flags res)] ++ m3)
